@@ -24,6 +24,8 @@ pub struct Tap {
     seen_nf: BTreeSet<String>,
     pub ncalls: u64,
     pub last_display: Option<Vec<String>>,
+    /// events-only sessions: record the calls, do not run a screen
+    pub events_only: bool,
 }
 
 pub fn panic_msg(e: Box<dyn std::any::Any + Send>) -> String {
@@ -49,6 +51,7 @@ impl Tap {
             seen_nf: BTreeSet::new(),
             ncalls: 0,
             last_display: None,
+            events_only: false,
         }
     }
 
@@ -144,6 +147,12 @@ impl Tap {
             return;
         }
         self.ncalls += 1;
+        if self.events_only {
+            if !self.quiet {
+                self.out.push(format!("E {}", c.line()));
+            }
+            return;
+        }
         if self.quiet {
             let sc = &mut self.screen;
             let r = catch_unwind(AssertUnwindSafe(|| c.apply(sc)));
